@@ -34,7 +34,7 @@ NewTx == [q |-> -1, s |-> -1, qc |-> 0, sc |-> 0, tc |-> 0, c100 |-> 0, c100line
           qcompleting |-> FALSE, scompleting |-> FALSE, qmark |-> 0, smark |-> 0, qdata |-> FALSE, sdata |-> FALSE,
           sites |-> {}, destroyed |-> FALSE, connect |-> FALSE, resseen |-> FALSE, qstartpos |-> 0, sstartpos |-> 0]
 
-ObsInit == [cfg |-> [autod |-> FALSE, maxtx |-> 0, hard |-> 18000, mode |-> "proto", wf |-> FALSE, ids |-> FALSE, pumpdir |-> "none", pumpstart |-> 0, role |-> "", idx |-> 0, fam |-> "", n |-> -1, cls |-> "", failat |-> -1],
+ObsInit == [cfg |-> [autod |-> FALSE, maxtx |-> 0, hard |-> 18000, mode |-> "proto", wf |-> FALSE, ids |-> FALSE, pumpdir |-> "none", pumpstart |-> 0, role |-> "", idx |-> 0, fam |-> "", bomb |-> 1048576, n |-> -1, cls |-> "", failat |-> -1],
             run |-> "", txs |-> <<>>, viol |-> {}, gsites |-> {}, pos |-> 0,
             call |-> [d |-> "none", k |-> "", len |-> 0, off |-> 0], cbs |-> 0, opened |-> FALSE,
             lastrc |-> [req |-> "none", res |-> "none"], counter |-> [req |-> 0, res |-> 0], counters_known |-> TRUE,
@@ -95,6 +95,9 @@ ObsCb(o, ev) ==
       vPair == IF n = "transaction_complete" /\ o.cfg.wf /\ o.cfg.ids /\ ~o.faulted /\
                   ~(ev.uri = <<"/r" \o ToString(i)>> /\ ev.xid = <<ToString(i)>>)
                THEN {V("C04:Paired", "ids", i)} ELSE {}
+      \* C07: decompressed bytes delivered for one message never exceed max(bomb limit, 2048 x compressed length) by more than one output buffer
+      Max2(a, b) == IF a > b THEN a ELSE b
+      vBomb == IF (isq \/ iss) /\ ev.ml < 1000000 /\ ev.el > Max2(o.cfg.bomb, 2048 * ev.ml) + 8192 THEN {V("C07:BombBound", n, i)} ELSE {}
       vBody == IF n \in {"request_body_data", "response_body_data"} /\ ~ev.nul /\ ~ev.m THEN {V("C06:DeliveredIsBody", n, i)} ELSE {}
       t1 == [t EXCEPT !.q = IF sd = "q" /\ ~marker /\ ~flush /\ n # "request_file_data" /\ r > @ THEN r ELSE @,
                       !.s = IF sd = "s" /\ ~marker /\ ~flush /\ r > @ THEN r ELSE @,
@@ -115,7 +118,7 @@ ObsCb(o, ev) ==
       wc == IF n = "request_headers" /\ t1.connect /\ ~t1.resseen THEN i
             ELSE IF i = o.waitconnect /\ (n = "response_line" \/ ev.sp > LINE) THEN -1 ELSE o.waitconnect
       o1 == WithTx(o, i, t1)
-  IN [Add(o1, vOrder \cup vProg \cup vOnce \cup vBoth \cup vAfterTx \cup vDead \cup vSticky \cup vTunnel \cup vSuspend \cup vAcc \cup vBody \cup vPair)
+  IN [Add(o1, vOrder \cup vProg \cup vOnce \cup vBoth \cup vAfterTx \cup vDead \cup vSticky \cup vTunnel \cup vSuspend \cup vAcc \cup vBody \cup vPair \cup vBomb)
         EXCEPT !.cbs = @ + 1, !.waitconnect = wc, !.waitarmed = (@ /\ wc >= 0),
                !.txcorder = IF n = "transaction_complete" THEN Append(@, i) ELSE @]
 
